@@ -1269,6 +1269,9 @@ STATE_SWITCH:
                         // We now need to check if this is the last boundary in the payload
                         parser->parser_state = STATE_BOUNDARY_IS_LAST2;
 
+                        // The boundary may end exactly at the end of the input buffer.
+                        if (pos >= len) return HTP_OK;
+
                         goto STATE_SWITCH;
                     }
                 } // while
